@@ -171,6 +171,18 @@ class ComputeTypeVisitor(Visitor.DefaultVisitor):
                 expr.ResolveType(scope)
                 expr.SetType(expr.function.GetReturnType())
             elif isinstance(expr, ast.BinaryExpression):
+                if (
+                    isinstance(expr, ast.AssignmentExpression)
+                    and isinstance(expr.GetLeft(), ast.MemberAccessExpression)
+                    and expr.GetLeft().isSwizzle
+                    and not types.IsCompatible(
+                        expr.GetLeft().GetType(), expr.GetRight().GetType()
+                    )
+                ):
+                    # A swizzle store takes one component per mask letter
+                    Errors.ERROR_INCOMPATIBLE_TYPES.Raise(
+                        expr.GetLeft().GetType(), expr.GetRight().GetType()
+                    )
                 expr.ResolveType(
                     expr.GetLeft().GetType(), expr.GetRight().GetType()
                 )
